@@ -89,6 +89,9 @@ func TestVerifC01Redial(t *testing.T) {
 						}
 					}
 					seen = append(seen, fmt.Sprintf("%v/%x", hasLLA, lla))
+					if _, merr := ndp.MarshalMessage(w.RA); merr != nil {
+						viol = append(viol, fmt.Sprintf("incarnation %d hands the socket an RA that cannot be encoded: %v", k, merr))
+					}
 					want := macs[k%len(macs)]
 					switch {
 					case want == nil && hasLLA:
